@@ -1,0 +1,9 @@
+//go:build !verif
+
+package runner
+
+func verifGate(g *gate, delta int) {}
+
+func verifRun(label string, begin bool) {}
+
+func verifYield(point, label string) {}
